@@ -99,10 +99,12 @@ def wildcard_vectors(pid, tier, rng, tmp):
             v["in"]["via"] = "rtnl"
     # listing failure must fail RA generation
     k = pid.lower()
-    if pid == "C15":
-        vecs.append({"kind": k, "id": k + "-fail", "in": {"routes": RPOOL[:2], "fail": True}})
-    else:
-        vecs.append({"kind": k, "id": k + "-fail", "in": {"addrs": APOOL[:3], "fail": True, "onlink": True, "auto": True, "static": []}})
+    # (whatever the class of the error: a vanished interface, an interrupted call, a permission problem, a time-out)
+    for fk in ("other", "notexist", "enoent", "patherr", "enodev", "eintr", "perm", "canceled", "deadline", "eof"):
+        if pid == "C15":
+            vecs.append({"kind": k, "id": k + "-fail-" + fk, "in": {"routes": RPOOL[:2], "fail": True, "failkind": fk}})
+        else:
+            vecs.append({"kind": k, "id": k + "-fail-" + fk, "in": {"addrs": APOOL[:3], "fail": True, "failkind": fk, "onlink": True, "auto": True, "static": []}})
     # random larger listings outside the TLC domain
     for j in range(6000 if thorough else 600):
         n = rng.randrange(0, 41 if thorough else 16)
@@ -177,6 +179,9 @@ def deprecation_vectors(pid, tier, rng, tmp):
         vecs.append({"kind": "c16", "id": "c16-rand-%05d" % j,
                      "in": {"epoch": epoch, "valid": valid, "pref": pref, "rl": rl, "deprecated": rng.random() < 0.85,
                             "reads": reads, "unit": rng.choice(["s", "ns"]), "tick": rng.choice([0, 0, 1, 1, 2, 7])}})
+        if j % 3 == 0:
+            # the prefix stanza is the ::/64 wildcard over an address the kernel may itself flag deprecated
+            vecs[-1]["in"].update({"wild": True, "kdep": j % 2 == 0, "deprecated": j % 4 == 1})
     return [mc], vecs
 
 
